@@ -1,11 +1,737 @@
-(* Proofs of the closed statements of Proofs/GamessUsEcpDefs.v (ECP part and whole file of the GAMESS-US writer / reader
-   pair): the findings, the counterexamples and the store instance, all by computation on the executable model.
-   The general statement gus_all_roundtrip_stmt is NOT proved here (see the header of Proofs/GamessUsEcpDefs.v). *)
-From BSE Require Import Model.Val Model.Text Model.Num Model.Basis Model.Manip Model.Matrix Model.Lut Model.Elements
+(* Proofs of the statements of Proofs/GamessUsEcpDefs.v (ECP part and whole file of the GAMESS-US writer / reader pair):
+   the whole file written by write_gamess_us is read back by read_gamess_us exactly as gus_all_expected says
+   (gus_all_roundtrip, gus_all_roundtrip_parts), the writer is total and loses no number (gus_all_write_total,
+   gus_all_no_number_lost); then the findings, the counterexamples and the store instance, by computation. *)
+From BSE Require Import Model.Val Model.Text Model.Num Model.Basis Model.Manip Model.Matrix Gen.GenLut Model.Lut Model.Elements
                         Model.Nwchem Model.NwchemEcp Model.G94 Model.GamessUs Model.GamessUsEcp
-                        Proofs.MatrixDefs Proofs.NwchemDefs Proofs.NwchemEcpDefs Proofs.GamessUsDefs Proofs.GamessUsEcpDefs
-                        Proofs.GamessUsSpec.
+                        Proofs.MatrixDefs Proofs.NwchemDefs Proofs.NwchemEcpDefs Proofs.G94Defs Proofs.GamessUsDefs
+                        Proofs.GamessUsEcpDefs Proofs.C20Finite.
+From Coq Require Import NArith Nnat Znat Lia Permutation.
+From BSE Require Import Proofs.HeaderSpec Proofs.PruneFS Proofs.MatrixSpec Proofs.NwchemSpec Proofs.NwchemEcpSpec
+                        Proofs.TurbomoleSpec Proofs.TurbomoleEcpSpec Proofs.G94Spec Proofs.G94EcpSpec Proofs.GamessUsSpec.
 
+(* ================================================================== *)
+(* 1. finite facts: the letters of the potentials                      *)
+(* ================================================================== *)
+(* the letter of the potential itself: lut.amint_to_char(am, hij=False), read back by amchar_to_int(hij=False) *)
+Definition pletter (l : Z) : ascii :=
+  match amint_to_char [l] false false with inr (String c EmptyString) => c | _ => "?"%char end.
+(* the letter of the highest momentum: lut.amint_to_char([max_ecp_am], hij=True); the reader does not use it *)
+Definition mletter (l : Z) : ascii :=
+  match amint_to_char [l] true false with inr (String c EmptyString) => c | _ => "?"%char end.
+
+Lemma pletter_facts : forall l, (0 <= l < 25)%Z ->
+  amint_to_char [l] false false = inr (String (pletter l) "") /\ is_alpha (pletter l) = true /\
+  amchar_to_int (String (pletter l) "") false = inr [l] /\
+  amint_to_char [l] true false = inr (String (mletter l) "") /\ is_alpha (mletter l) = true.
+Proof.
+  intros l Hl. assert (Hin : In l (zrange 0 25)) by (apply zrange_In; lia). revert Hin. clear Hl.
+  cbn [zrange Z.add]. cbn [In]. intros H.
+  repeat (destruct H as [H|H]; [subst l; vm_compute; repeat split; reflexivity|]). destruct H.
+Qed.
+
+(* a one-digit r exponent *)
+Lemma digit_string : forall x, (0 <= x <= 9)%Z ->
+  exists d, Z_to_string x = String d "" /\ is_digit d = true /\ digits_val (String d "") 0 = x.
+Proof.
+  intros x Hx. assert (H : (x = 0 \/ x = 1 \/ x = 2 \/ x = 3 \/ x = 4 \/ x = 5 \/ x = 6 \/ x = 7 \/ x = 8 \/ x = 9)%Z) by lia.
+  repeat (destruct H as [H|H]; [subst x; eexists; repeat split; reflexivity|]). subst x. eexists; repeat split; reflexivity.
+Qed.
+
+(* ================================================================== *)
+(* 2. well-formedness: what it gives; the order of the potentials       *)
+(* ================================================================== *)
+Definition gpc (p : epot) : list string := hd [] (p_coef p).
+
+Lemma gus_pot_parts : forall p, gus_pot_ok p ->
+  p_am p = [pot_l p] /\ (0 <= pot_l p < 25)%Z /\ Forall (fun r => (0 <= r <= 9)%Z) (p_rexp p) /\
+  List.length (p_gexp p) = List.length (p_rexp p) /\ p_coef p = [gpc p] /\ List.length (gpc p) = List.length (p_rexp p) /\
+  Forall floating (gpc p) /\ Forall (fun x => parse_num x <> None) (gpc p) /\ Forall floating (p_gexp p).
+Proof.
+  intros p [[l [Ea Hl]] [Hr [Hg [[c [Ec [Hc [Fc Pc]]]] Fg]]]]. unfold pot_l, gpc. rewrite Ea, Ec. cbn [hd].
+  repeat split; try assumption; lia.
+Qed.
+
+Lemma gus_order_ok : forall pots, pots <> [] ->
+  ecp_order pots = inr (ecp_written_order pots) /\ Permutation pots (ecp_written_order pots).
+Proof.
+  intros pots Hne. pose proof (sorted_perm pots) as Hperm.
+  unfold ecp_written_order, ecp_order, ecp_rotate. destruct (rev (ecp_sorted pots)) as [|x r] eqn:Er.
+  - exfalso. apply Hne. apply Permutation_sym in Hperm. apply Permutation_nil.
+    assert (E : ecp_sorted pots = []) by (rewrite <- (rev_involutive (ecp_sorted pots)), Er; reflexivity).
+    rewrite E in Hperm. exact Hperm.
+  - assert (Es : ecp_sorted pots = rev r ++ [x]) by (rewrite <- (rev_involutive (ecp_sorted pots)), Er; reflexivity).
+    rewrite Es in Hperm. split; [reflexivity|]. unfold ok.
+    eapply Permutation_trans; [exact Hperm|]. apply Permutation_sym, Permutation_cons_append.
+Qed.
+
+Lemma gus_max_am_ok : forall pots, pots <> [] -> Forall gus_pot_ok pots ->
+  ecp_max_am pots = inr (zmax (map pot_l pots)) /\ (0 <= zmax (map pot_l pots) < 25)%Z.
+Proof.
+  intros pots Hne Hok. split.
+  - unfold ecp_max_am. rewrite (mapM_map_ok _ _ am_first pot_l pots).
+    + unfold bind. destruct pots; [congruence | reflexivity].
+    + intros p Hp. rewrite Forall_forall in Hok. destruct (gus_pot_parts p (Hok p Hp)) as [Ea _].
+      unfold am_first. rewrite Ea. reflexivity.
+  - assert (Hls : map pot_l pots <> []) by (destruct pots; [congruence | discriminate]).
+    destruct (zmax_facts (map pot_l pots) Hls) as [Zin _]. apply in_map_iff in Zin. destruct Zin as [p [<- Hp]].
+    rewrite Forall_forall in Hok. apply (gus_pot_parts p (Hok p Hp)).
+Qed.
+
+Lemma gus_el_parts : forall e, gus_ecp_el_ok e ->
+  (1 <= fst e <= 120)%Z /\ (0 <= fst (snd e))%Z /\ snd (snd e) <> [] /\ Forall gus_pot_ok (snd (snd e)) /\
+  Forall gus_pot_ok (ecp_written_order (snd (snd e))).
+Proof.
+  intros [z [n pots]] [Hz [Hn [Hne Hok]]]. cbn [fst snd]. repeat split; try assumption; try lia.
+  destruct (gus_order_ok pots Hne) as [_ P]. apply (Permutation_Forall P), Hok.
+Qed.
+
+(* ================================================================== *)
+(* 3. the lines the writer prints                                      *)
+(* ================================================================== *)
+Definition gptrip (p : epot) : list (Z * string * string) := trip (p_rexp p) (p_gexp p) (gpc p).
+Definition gerow (t : Z * string * string) : string :=
+  match write_row (tcellrow t) gus_ecp_point_places true "" with inr l => l | inl _ => "" end.
+Definition gerows (p : epot) : list string := map gerow (gptrip p).
+Definition gtk (mx : Z) (p : epot) : string :=
+  String (pletter (pot_l p)) (String "-" (if Z.eqb (pot_l p) mx then "ul" else String (mletter mx) "")).
+Definition gtitle (mx : Z) (p : epot) : string :=
+  pad5 (nat_str (List.length (p_rexp p))) +++
+  String " " ("-----" +++ String " " (gtk mx p +++ String " " ("potential" +++ String " " "-----"))).
+Definition gpot_lines (mx : Z) (p : epot) : list string := gtitle mx p :: gerows p.
+Definition gehdr (z n mx : Z) : string := usym z +++ "-ECP GEN    " +++ Z_to_string n +++ "    " +++ Z_to_string mx.
+Definition gecp_el_lines (e : Z * (Z * list epot)) : list string :=
+  gehdr (fst e) (fst (snd e)) (el_mx e) :: flat_map (gpot_lines (el_mx e)) (ecp_written_order (snd (snd e))).
+(* the ECP part of the file, behind the `$END` of the electron part (which has no newline of its own) *)
+Definition gecp_tail (ecps : list (Z * (Z * list epot))) : list string :=
+  "" :: "$ECP" :: flat_map gecp_el_lines ecps ++ ["$END"].
+Definition gall_lines (els : list (Z * list sshell)) (ecps : list (Z * (Z * list epot))) : list string :=
+  match els, ecps with
+  | [], [] => []
+  | _, [] => glines els
+  | [], _ => "" :: gecp_tail ecps
+  | _, _ => glines els ++ gecp_tail ecps
+  end.
+
+Lemma gerow_facts : forall t, trip_ok t ->
+  write_row (tcellrow t) gus_ecp_point_places true "" = inr (gerow t) /\ good_line (gerow t) /\
+  tokens_acc (gerow t) "" = ttokrow t.
+Proof.
+  intros t Ht. destruct (tcellrow_ok t Ht) as [Hok Hasc].
+  destruct (write_row_total (tcellrow t) gus_ecp_point_places true "" Hok) as [line Hl].
+  { destruct t as [[x y] z]. cbn. lia. }
+  unfold gerow. rewrite Hl. split; [reflexivity|]. split.
+  - apply (write_row_chars nobd eq_refl (tcellrow t) gus_ecp_point_places true "" line); [|reflexivity|exact Hl].
+    rewrite Forall_forall in *. intros c Hc. apply cell_nobd; [apply Hok | apply Hasc]; exact Hc.
+  - rewrite (write_row_tokens_gen _ _ _ _ _ Hok (fun _ => eq_refl) Hl). destruct t as [[x y] z]. reflexivity.
+Qed.
+
+Lemma gptrip_ok : forall p, gus_pot_ok p -> Forall trip_ok (gptrip p).
+Proof.
+  intros p Hp. destruct (gus_pot_parts p Hp) as [_ [_ [_ [_ [_ [_ [Fc [_ Fg]]]]]]]]. apply trip_all_ok; assumption.
+Qed.
+
+Lemma gus_ecp_cols_eq : forall p, gus_pot_ok p ->
+  gus_ecp_cols p = [map CStr (gpc p); map CInt (p_rexp p); map CStr (p_gexp p)].
+Proof. intros p Hp. destruct (gus_pot_parts p Hp) as [_ [_ [_ [_ [Ec _]]]]]. unfold gus_ecp_cols. rewrite Ec. reflexivity. Qed.
+
+Lemma write_matrix_gus_ecp : forall p, gus_pot_ok p ->
+  leftpad_check (gus_ecp_cols p) gus_ecp_point_places = inr tt /\
+  write_matrix (gus_ecp_cols p) gus_ecp_point_places false = inr (unlines (gerows p)).
+Proof.
+  intros p Hp. pose proof (gptrip_ok p Hp) as Ht. rewrite (gus_ecp_cols_eq p Hp).
+  destruct (gus_pot_parts p Hp) as [_ [_ [_ [_ [_ [_ [Fc [_ Fg]]]]]]]]. unfold floating in *. split.
+  - unfold gus_ecp_point_places. cbn [leftpad_check].
+    destruct (mapM_find_point (map CStr (gpc p))) as [l1 ->]; [apply floats_cells, Fc|].
+    destruct (mapM_find_point (map CInt (p_rexp p))) as [l2 ->].
+    { rewrite Forall_forall. intros c Hc. apply in_map_iff in Hc. destruct Hc as [x [<- _]]. exact I. }
+    destruct (mapM_find_point (map CStr (p_gexp p))) as [l3 ->]; [apply floats_cells, Fg|].
+    reflexivity.
+  - unfold write_matrix, transpose_cells. rewrite transpose_ttrip. fold (gptrip p).
+    rewrite (mapM_map_ok2 _ _ _ (fun row => write_row row gus_ecp_point_places true "") tcellrow gerow (gptrip p)).
+    + reflexivity.
+    + intros t Hin. rewrite Forall_forall in Ht. apply (gerow_facts t (Ht t Hin)).
+Qed.
+
+Lemma write_pot_lines_gus : forall mx p, gus_pot_ok p ->
+  gus_write_pot mx (String (mletter mx) "") p = inr (unlines (gpot_lines mx p)).
+Proof.
+  intros mx p Hp. destruct (write_matrix_gus_ecp p Hp) as [Hl Hw]. destruct (gus_pot_parts p Hp) as [Ea [Hr _]].
+  destruct (pletter_facts (pot_l p) Hr) as [E _].
+  unfold gus_write_pot, am_first. rewrite Ea, E, Hl, Hw. unfold bind, ok.
+  unfold gpot_lines, gtitle, gtk. rewrite unlines_cons. destruct (Z.eqb (pot_l p) mx); rewrite !sapp_assoc; reflexivity.
+Qed.
+
+Lemma write_ecp_element_lines_gus : forall e, gus_ecp_el_ok e -> gus_write_ecp_element e = inr (unlines (gecp_el_lines e)).
+Proof.
+  intros e He. destruct (gus_el_parts e He) as [Hz [Hn [Hne [Hok Hoo]]]]. destruct e as [z [n pots]]. cbn [fst snd] in *.
+  destruct (usym_facts z Hz) as [Es _]. destruct (gus_order_ok pots Hne) as [Eo _].
+  destruct (gus_max_am_ok pots Hne Hok) as [Em Hm]. destruct (pletter_facts _ Hm) as [_ [_ [_ [Emx _]]]].
+  unfold gus_write_ecp_element. rewrite Es. unfold bind at 1. rewrite Em. unfold bind at 1. rewrite Emx. unfold bind at 1.
+  rewrite Eo. unfold bind at 1.
+  rewrite (mapM_map_ok _ _ _ (fun p => unlines (gpot_lines (zmax (map pot_l pots)) p))).
+  - unfold bind, ok, gecp_el_lines, el_mx, gehdr, usym. cbn [fst snd]. rewrite Es.
+    rewrite unlines_cons, unlines_flat_map, !sapp_assoc. reflexivity.
+  - intros p Hp. apply write_pot_lines_gus. rewrite Forall_forall in Hoo. apply Hoo, Hp.
+Qed.
+
+Definition gecp_text (ecps : list (Z * (Z * list epot))) : string :=
+  match ecps with [] => "" | _ => unlines ("" :: gecp_tail ecps) end.
+
+Lemma write_ecp_lines_gus : forall ecps, gus_ecp_ok ecps -> gus_write_ecp ecps = inr (gecp_text ecps).
+Proof.
+  intros ecps [_ Hel]. unfold gus_write_ecp, gecp_text. destruct ecps as [|e0 ecps0]; [reflexivity|].
+  rewrite (mapM_map_ok _ _ gus_write_ecp_element (fun e => unlines (gecp_el_lines e))).
+  - unfold bind, ok, gecp_tail. rewrite !unlines_cons, unlines_app, unlines_flat_map. reflexivity.
+  - intros e Hin. apply write_ecp_element_lines_gus. rewrite Forall_forall in Hel. apply Hel, Hin.
+Qed.
+
+Lemma write_all_text_gus : forall els ecps, gus_wf els -> gus_ecp_ok ecps ->
+  gus_write_all els ecps = inr (gtext els +++ gecp_text ecps).
+Proof.
+  intros els ecps H1 H2. unfold gus_write_all. rewrite (write_electron_lines_gus els H1), (write_ecp_lines_gus ecps H2). reflexivity.
+Qed.
+
+Lemma gus_all_write_total : gus_all_write_total_stmt.
+Proof. intros els ecps H1 H2. eexists. apply write_all_text_gus; assumption. Qed.
+
+(* ---- every line is a complete line for splitlines ---- *)
+Lemma usym_nobd : forall z, (1 <= z <= 120)%Z -> sall nobd (usym z) = true.
+Proof. intros z Hz. destruct (usym_facts z Hz) as [_ [_ [Hs _]]]. exact (sall_impl is_alpha nobd _ alpha_nobd Hs). Qed.
+
+Lemma sp_nobd : forall k, sall nobd (sp k) = true.
+Proof. induction k as [|k IH]; [reflexivity|]. rewrite sp_succ. cbn [sall]. rewrite IH. reflexivity. Qed.
+
+Lemma gtitle_good : forall mx p, gus_pot_ok p -> (0 <= mx < 25)%Z -> good_line (gtitle mx p).
+Proof.
+  intros mx p Hp Hm. destruct (gus_pot_parts p Hp) as [_ [Hr _]].
+  destruct (pletter_facts _ Hr) as [_ [A1 _]]. destruct (pletter_facts _ Hm) as [_ [_ [_ [_ A2]]]].
+  unfold gtitle, gtk, pad5, good_line. rewrite !sall_app. cbn [sall String.append]. rewrite !sall_app. cbn [sall].
+  rewrite (sall_impl is_digit nobd _ digit_is_nobd (nat_str_digits _)), sp_nobd, (alpha_nobd _ A1).
+  destruct (Z.eqb (pot_l p) mx); cbn [sall]; [reflexivity|]. rewrite (alpha_nobd _ A2). reflexivity.
+Qed.
+
+Lemma gehdr_good : forall z n mx, (1 <= z <= 120)%Z -> good_line (gehdr z n mx).
+Proof.
+  intros z n mx Hz. unfold gehdr, good_line. rewrite !sall_app, (usym_nobd z Hz).
+  rewrite !(sall_impl intc nobd _ intc_nobd (Z_to_string_intc _)). reflexivity.
+Qed.
+
+Lemma gecp_el_lines_good : forall e, gus_ecp_el_ok e -> Forall good_line (gecp_el_lines e).
+Proof.
+  intros e He. destruct (gus_el_parts e He) as [Hz [Hn [Hne [Hok Hoo]]]]. destruct e as [z [n pots]]. cbn [fst snd] in *.
+  destruct (gus_max_am_ok pots Hne Hok) as [_ Hm].
+  unfold gecp_el_lines, el_mx. cbn [fst snd]. constructor; [apply gehdr_good, Hz|].
+  rewrite Forall_forall in *. intros l Hl. apply in_flat_map in Hl. destruct Hl as [p [Hp Hl]].
+  destruct Hl as [<-|Hl]; [apply gtitle_good; [apply Hoo, Hp | exact Hm]|].
+  unfold gerows in Hl. apply in_map_iff in Hl. destruct Hl as [t [<- Ht]].
+  pose proof (gptrip_ok p (Hoo p Hp)) as Hall. rewrite Forall_forall in Hall. apply gerow_facts, Hall, Ht.
+Qed.
+
+Lemma gecp_tail_good : forall ecps, gus_ecp_ok ecps -> Forall good_line (gecp_tail ecps).
+Proof.
+  intros ecps [_ Hel]. unfold gecp_tail. repeat (constructor; [reflexivity|]).
+  apply Forall_app. split; [|repeat constructor].
+  rewrite Forall_forall in *. intros l Hl. apply in_flat_map in Hl. destruct Hl as [e [He Hl]].
+  pose proof (gecp_el_lines_good e (Hel e He)) as G. rewrite Forall_forall in G. apply G, Hl.
+Qed.
+
+Lemma gecp_text_ne : forall ecps, ecps <> [] -> gecp_text ecps = unlines ("" :: gecp_tail ecps).
+Proof. intros [|e ecps] H; [congruence | reflexivity]. Qed.
+Lemma gtext_ne : forall els, els <> [] -> gtext els = unlines (gbody els) +++ "$END".
+Proof. intros [|e els] H; [congruence | reflexivity]. Qed.
+Lemma gall_lines_ecp : forall ecps, ecps <> [] -> gall_lines [] ecps = "" :: gecp_tail ecps.
+Proof. intros [|e ecps] H; [congruence | reflexivity]. Qed.
+Lemma gall_lines_both : forall els ecps, els <> [] -> ecps <> [] -> gall_lines els ecps = glines els ++ gecp_tail ecps.
+Proof. intros [|zs els] [|e ecps] H1 H2; try congruence. reflexivity. Qed.
+Lemma gall_lines_el : forall els, gall_lines els [] = match els with [] => [] | _ => glines els end.
+Proof. intros [|zs els]; reflexivity. Qed.
+
+Lemma written_all_lines_gus : forall els ecps, gus_wf els -> gus_ecp_ok ecps ->
+  splitlines (gtext els +++ gecp_text ecps) = gall_lines els ecps.
+Proof.
+  intros els ecps H1 H2. pose proof (gecp_tail_good ecps H2) as G.
+  destruct ecps as [|e ecps].
+  - unfold gecp_text. rewrite sapp_nil_r. destruct els as [|zs els]; [reflexivity|].
+    apply (written_lines_gus _ H1). discriminate.
+  - assert (HE : e :: ecps <> []) by discriminate. revert HE G. generalize (e :: ecps) as E. intros E HE G.
+    rewrite (gecp_text_ne E HE). destruct els as [|zs els].
+    + rewrite (gall_lines_ecp E HE). cbn [gtext String.append].
+      apply splitlines_unlines. constructor; [reflexivity | exact G].
+    + assert (HL : zs :: els <> []) by discriminate. revert HL H1. generalize (zs :: els) as L. intros L HL H1.
+      rewrite (gall_lines_both L E HL HE), (gtext_ne L HL). unfold glines.
+      assert (ET : (unlines (gbody L) +++ "$END") +++ unlines ("" :: gecp_tail E) = unlines ((gbody L ++ ["$END"]) ++ gecp_tail E)).
+      { rewrite !unlines_app, (unlines_cons "" (gecp_tail E)). change (unlines ["$END"]) with ("$END" +++ nl1).
+        rewrite !sapp_assoc. reflexivity. }
+      rewrite ET.
+      apply splitlines_unlines. apply Forall_app. split; [|exact G]. apply Forall_app. split; [apply gbody_good, H1 | repeat constructor].
+Qed.
+
+(* ================================================================== *)
+(* 4. the kinds of lines of the ECP part                               *)
+(* ================================================================== *)
+(* a line that begins with a digit, a sign or the point: a title line, a printed row *)
+Definition nhead (l : string) : Prop :=
+  exists c r, l = String c r /\ is_alpha c = false /\ is_space c = false /\ sany (Ascii.eqb c) sk = false.
+
+Lemma nhead_facts : forall l, nhead l ->
+  head_not_in sk l /\ match_element_block l = None /\ match_ecp_block l = None.
+Proof.
+  intros l [c [r [-> [Ha [Hs Hk]]]]]. split; [|split].
+  - exists c, r. split; [reflexivity | exact Hk].
+  - unfold match_element_block. rewrite (lstrip_head c r Hs). cbn [span_alpha]. rewrite Ha. reflexivity.
+  - unfold match_ecp_block. rewrite (lstrip_head c r Hs). cbn [span_alpha]. rewrite Ha. reflexivity.
+Qed.
+
+Lemma floating_first_gus : forall c t, is_floating (String c t) = true ->
+  is_alpha c = false /\ is_space c = false /\ sany (Ascii.eqb c) sk = false.
+Proof. intros c t H. all_chars c; try (repeat split; reflexivity); exfalso; cbn in H; discriminate H. Qed.
+Lemma digit_first_gus : forall c, is_digit c = true ->
+  is_alpha c = false /\ is_space c = false /\ sany (Ascii.eqb c) sk = false.
+Proof. intros c H. all_chars c; try (repeat split; reflexivity); discriminate H. Qed.
+
+Lemma gerow_nhead : forall t, trip_ok t -> nhead (strip_ws (gerow t)).
+Proof.
+  intros t Ht. destruct (gerow_facts t Ht) as [_ [_ Htok]]. destruct t as [[x y] z]. destruct Ht as [_ Hz]. cbn [fst snd] in Hz.
+  cbn [ttokrow] in Htok.
+  destruct (tokens_first _ _ _ Htok) as [c [t' [y' [E [El Hc]]]]].
+  destruct (strip_first _ c y' El Hc) as [r Er]. rewrite E in Hz.
+  exists c, r. split; [exact Er | apply (floating_first_gus c t' Hz)].
+Qed.
+
+(* ---- the title line ---- *)
+Lemma tokens_word_sp_g : forall w c r, tok_ok w -> is_space c = true ->
+  tokens_acc (w +++ String c r) "" = w :: tokens_acc r "".
+Proof.
+  intros w c r [Hne Hs] Hc. rewrite (tokens_word w _ "" Hs), sapp_nil_r. cbn [tokens_acc]. rewrite Hc.
+  destruct (srev w) as [|a x] eqn:E.
+  - exfalso. apply Hne. rewrite <- (srev_involutive w), E. reflexivity.
+  - rewrite <- E, srev_involutive. reflexivity.
+Qed.
+
+Lemma gtk_tok : forall mx p, gus_pot_ok p -> (0 <= mx < 25)%Z -> tok_ok (gtk mx p).
+Proof.
+  intros mx p Hp Hm. destruct (gus_pot_parts p Hp) as [_ [Hr _]].
+  destruct (pletter_facts _ Hr) as [_ [A1 _]]. destruct (pletter_facts _ Hm) as [_ [_ [_ [_ A2]]]].
+  unfold gtk. split; [discriminate|]. cbn [sany]. rewrite (alpha_not_space _ A1).
+  destruct (Z.eqb (pot_l p) mx); cbn [sany]; [reflexivity|]. rewrite (alpha_not_space _ A2). reflexivity.
+Qed.
+
+Lemma gtitle_tokens : forall mx p, gus_pot_ok p -> (0 <= mx < 25)%Z ->
+  tokens_acc (gtitle mx p) "" = [nat_str (List.length (p_rexp p)); "-----"; gtk mx p; "potential"; "-----"].
+Proof.
+  intros mx p Hp Hm. unfold gtitle, pad5. rewrite sapp_assoc, sp_comm.
+  rewrite (tokens_word_sp_g _ " " _ (nat_str_tok _) eq_refl), tokens_sp.
+  rewrite (tokens_word_sp_g "-----" " " _ ltac:(split; [discriminate | reflexivity]) eq_refl).
+  rewrite (tokens_word_sp_g _ " " _ (gtk_tok mx p Hp Hm) eq_refl). reflexivity.
+Qed.
+
+Lemma gtitle_facts : forall mx p, gus_pot_ok p -> (0 <= mx < 25)%Z ->
+  strip_ws (gtitle mx p) = gtitle mx p /\ nhead (gtitle mx p) /\
+  match_ecp_shell (gtitle mx p) = Some (nat_str (List.length (p_rexp p)), pletter (pot_l p)).
+Proof.
+  intros mx p Hp Hm. destruct (gus_pot_parts p Hp) as [_ [Hr _]].
+  destruct (pletter_facts _ Hr) as [_ [A1 _]]. destruct (pletter_facts _ Hm) as [_ [_ [_ [_ A2]]]].
+  set (n := List.length (p_rexp p)).
+  assert (E : gtitle mx p = nat_str n +++ (sp (5 - String.length (nat_str n)) +++ " ----- " +++ gtk mx p +++ " potential ") +++ "-----").
+  { unfold gtitle, pad5. fold n. rewrite !sapp_assoc. reflexivity. }
+  split; [|split].
+  - rewrite E. apply strip_words; [apply nat_str_tok | split; [discriminate | reflexivity]].
+  - rewrite E. pose proof (nat_str_digits n) as Hd. pose proof (nat_str_ne n) as Hne.
+    destruct (nat_str n) as [|c r]; [congruence|]. cbn [sall] in Hd. apply andb_true_iff in Hd. destruct Hd as [Hc _].
+    eexists c, _. split; [reflexivity | apply digit_first_gus, Hc].
+  - unfold match_ecp_shell. rewrite (gtitle_tokens mx p Hp Hm). fold n. unfold gtk.
+    destruct (decimal_is_integer (nat_str n) (conj (nat_str_ne n) (nat_str_digits n))) as [_ [_ Hdec]]. rewrite Hdec, A1.
+    destruct (Z.eqb (pot_l p) mx); cbn; [reflexivity|]. rewrite A2. reflexivity.
+Qed.
+
+(* ---- the header line of an element ---- *)
+Lemma span_digit_word_sp : forall a r, sall is_digit a = true -> span_digit (a +++ String " " r) = (a, String " " r).
+Proof.
+  induction a as [|c a IH]; intros r H; [reflexivity|].
+  cbn [sall] in H. apply andb_true_iff in H. destruct H as [Hc Ha]. cbn [String.append span_digit]. rewrite Hc, (IH r Ha). reflexivity.
+Qed.
+
+Lemma gehdr_facts : forall z n mx, (1 <= z <= 120)%Z -> (0 <= n)%Z -> (0 <= mx)%Z ->
+  head_not_in sk (gehdr z n mx) /\ strip_ws (gehdr z n mx) = gehdr z n mx /\
+  match_element_block (gehdr z n mx) = None /\ match_shell_block (gehdr z n mx) = None /\
+  match_ecp_block (gehdr z n mx) = Some (usym z, Z_to_string n, Z_to_string mx).
+Proof.
+  intros z n mx Hz Hn Hm. destruct (usym_facts z Hz) as [_ [Hne [Ha _]]]. pose proof (usym_tok z Hz) as Htok.
+  destruct (usym_head z Hz) as [c [u [Eu Hc]]].
+  destruct (nonneg_string n Hn) as [[Hn1 Hn2] _]. destruct (nonneg_string mx Hm) as [[Hm1 Hm2] _].
+  assert (Hl : lstrip_ws (gehdr z n mx) = gehdr z n mx) by (apply lstrip_word, Htok).
+  assert (Hsp : span_alpha (gehdr z n mx) = (usym z, "-ECP GEN    " +++ Z_to_string n +++ "    " +++ Z_to_string mx)).
+  { unfold gehdr. apply (span_alpha_word_c (usym z) "-"%char _ Ha eq_refl). }
+  split; [|split; [|split; [|split]]].
+  - unfold gehdr. rewrite Eu. eexists c, _. split; [reflexivity | apply alpha_not_sk, Hc].
+  - assert (E : gehdr z n mx = usym z +++ ("-ECP GEN    " +++ Z_to_string n +++ "    ") +++ Z_to_string mx)
+      by (unfold gehdr; rewrite !sapp_assoc; reflexivity).
+    rewrite E. apply strip_words; [exact Htok | apply int_tok].
+  - unfold match_element_block. rewrite Hl, Hsp. rewrite Eu. reflexivity.
+  - unfold match_shell_block. rewrite Hl. unfold gehdr. rewrite Eu. cbn [String.append].
+    destruct (sany (Ascii.eqb c) gus_shell_letters); [|reflexivity].
+    destruct u as [|c2 u]; [reflexivity|].
+    rewrite Eu in Ha. cbn [sall] in Ha. apply andb_true_iff in Ha. destruct Ha as [_ Ha]. apply andb_true_iff in Ha.
+    destruct Ha as [Hc2 _]. cbn [String.append]. rewrite (alpha_not_space _ Hc2). reflexivity.
+  - unfold match_ecp_block. rewrite Hl, Hsp. rewrite Eu at 1.
+    change (str_prefix "-ECP GEN" ("-ECP GEN    " +++ Z_to_string n +++ "    " +++ Z_to_string mx)) with true. cbv iota.
+    change (drop_chars 8 ("-ECP GEN    " +++ Z_to_string n +++ "    " +++ Z_to_string mx))
+      with (String " " (sp 3 +++ Z_to_string n +++ String " " (sp 3 +++ Z_to_string mx))).
+    change (is_space " ") with true. cbv iota.
+    change (String " " (sp 3 +++ Z_to_string n +++ String " " (sp 3 +++ Z_to_string mx)))
+      with (sp 4 +++ Z_to_string n +++ String " " (sp 3 +++ Z_to_string mx)).
+    rewrite lstrip_sp, (lstrip_word _ _ (int_tok n)), (span_digit_word_sp _ _ Hn2).
+    destruct (Z_to_string n) as [|d1 r1] eqn:En; [congruence|]. change (is_space " ") with true. cbv iota.
+    change (String " " (sp 3 +++ Z_to_string mx)) with (sp 4 +++ Z_to_string mx).
+    rewrite lstrip_sp, (lstrip_tok _ (int_tok mx)), (span_digit_all _ Hm2).
+    destruct (Z_to_string mx) as [|d2 r2] eqn:Em; [congruence|]. reflexivity.
+Qed.
+
+(* ================================================================== *)
+(* 5. prune_lines on the written lines                                 *)
+(* ================================================================== *)
+Definition gpblk (mx : Z) (p : epot) : list string := gtitle mx p :: map strip_ws (gerows p).
+Definition gesec (e : Z * (Z * list epot)) : list string :=
+  gehdr (fst e) (fst (snd e)) (el_mx e) :: flat_map (gpblk (el_mx e)) (ecp_written_order (snd (snd e))).
+
+Lemma el_mx_range : forall e, gus_ecp_el_ok e -> (0 <= el_mx e < 25)%Z.
+Proof.
+  intros e He. destruct (gus_el_parts e He) as [_ [_ [Hne [Hok _]]]]. unfold el_mx. apply (gus_max_am_ok _ Hne Hok).
+Qed.
+
+Lemma gpblk_lines : forall mx p l, gus_pot_ok p -> (0 <= mx < 25)%Z -> In l (gpblk mx p) -> nhead l.
+Proof.
+  intros mx p l Hp Hm [<-|Hin]; [apply (gtitle_facts mx p Hp Hm)|].
+  unfold gerows in Hin. rewrite map_map in Hin. apply in_map_iff in Hin. destruct Hin as [t [<- Ht]].
+  pose proof (gptrip_ok p Hp) as Hall. rewrite Forall_forall in Hall. apply gerow_nhead, Hall, Ht.
+Qed.
+
+Lemma gesec_tail_lines : forall e l, gus_ecp_el_ok e ->
+  In l (flat_map (gpblk (el_mx e)) (ecp_written_order (snd (snd e)))) -> nhead l.
+Proof.
+  intros e l He Hin. pose proof (el_mx_range e He) as Hm. destruct (gus_el_parts e He) as [_ [_ [_ [_ Hoo]]]].
+  apply in_flat_map in Hin. destruct Hin as [p [Hp Hl]]. rewrite Forall_forall in Hoo.
+  apply (gpblk_lines _ p l (Hoo p Hp) Hm Hl).
+Qed.
+
+Lemma stripped_ecp_el : forall e, gus_ecp_el_ok e -> map strip_ws (gecp_el_lines e) = gesec e.
+Proof.
+  intros e He. pose proof (el_mx_range e He) as Hm. destruct (gus_el_parts e He) as [Hz [Hn [_ [_ Hoo]]]].
+  unfold gecp_el_lines, gesec. cbn [map].
+  destruct (gehdr_facts _ _ _ Hz Hn (proj1 Hm)) as [_ [-> _]]. f_equal.
+  rewrite map_flat_map. apply flat_map_ext_in. intros p Hp. unfold gpot_lines, gpblk. cbn [map].
+  rewrite Forall_forall in Hoo. destruct (gtitle_facts (el_mx e) p (Hoo p Hp) Hm) as [-> _]. reflexivity.
+Qed.
+
+Lemma gesec_heads : forall e, gus_ecp_el_ok e -> Forall (head_not_in sk) (gesec e).
+Proof.
+  intros e He. pose proof (el_mx_range e He) as Hm. destruct (gus_el_parts e He) as [Hz [Hn _]].
+  unfold gesec. constructor; [apply (gehdr_facts _ _ _ Hz Hn (proj1 Hm))|].
+  rewrite Forall_forall. intros l Hl. apply (nhead_facts l (gesec_tail_lines e l He Hl)).
+Qed.
+
+Lemma pr_ecp_el : forall e, gus_ecp_el_ok e -> pr (gecp_el_lines e) = gesec e.
+Proof.
+  intros e He. unfold pr. rewrite (pr_keep sk _ sk_ne); rewrite (stripped_ecp_el e He); [reflexivity | apply gesec_heads, He].
+Qed.
+
+Lemma pruned_all_lines_gus : forall els ecps, gus_wf els -> gus_ecp_ok ecps -> els <> [] ->
+  gus_prune (gall_lines els ecps) = concat (map gsec els) ++ flat_map gesec ecps.
+Proof.
+  intros els ecps H1 [_ Hel] Hne. destruct ecps as [|e ecps].
+  - rewrite gall_lines_el. destruct els as [|zs els]; [congruence|]. cbn [flat_map]. rewrite app_nil_r.
+    apply pruned_lines_gus, H1.
+  - rewrite (gall_lines_both els (e :: ecps) Hne ltac:(discriminate)). revert Hel. generalize (e :: ecps) as E. intros E Hel.
+    change (gus_prune (glines els ++ gecp_tail E)) with (pr (glines els ++ gecp_tail E)).
+    unfold pr. rewrite (pr_app sk _ _ sk_ne). fold (pr (glines els)). change (pr (glines els)) with (gus_prune (glines els)).
+    rewrite (pruned_lines_gus els H1). f_equal. unfold gecp_tail.
+    change ("" :: "$ECP" :: flat_map gecp_el_lines E ++ ["$END"]) with ([""; "$ECP"] ++ flat_map gecp_el_lines E ++ ["$END"]).
+    rewrite !(pr_app sk _ _ sk_ne).
+    change (prune_lines [""; "$ECP"] sk true true) with (@nil string).
+    change (prune_lines ["$END"] sk true true) with (@nil string).
+    cbn [app]. rewrite app_nil_r. fold (pr (flat_map gecp_el_lines E)). rewrite pr_flat_map.
+    apply flat_map_ext_in. intros e0 Hin. apply pr_ecp_el. rewrite Forall_forall in Hel. apply Hel, Hin.
+Qed.
+
+(* ================================================================== *)
+(* 6. the two partitions                                               *)
+(* ================================================================== *)
+Definition ecp_cond (x : string) : res bool := ok (is_ecp_block_line x).
+
+Lemma gesec_not_el : forall ecps, Forall gus_ecp_el_ok ecps -> Forall (fun l => el_cond l = inr false) (flat_map gesec ecps).
+Proof.
+  intros ecps Hel. rewrite Forall_forall in *. intros l Hl. apply in_flat_map in Hl. destruct Hl as [e [He Hl]].
+  pose proof (Hel e He) as Hok. destruct (gus_el_parts e Hok) as [Hz [Hn _]]. pose proof (el_mx_range e Hok) as Hm.
+  unfold el_cond. unfold gesec in Hl. destruct Hl as [<-|Hl].
+  - destruct (gehdr_facts _ _ _ Hz Hn (proj1 Hm)) as [_ [_ [-> _]]]. reflexivity.
+  - destruct (nhead_facts l (gesec_tail_lines e l Hok Hl)) as [_ [-> _]]. reflexivity.
+Qed.
+
+Lemma gesec_shape : forall e, gus_ecp_el_ok e -> block_shape ecp_cond (gesec e).
+Proof.
+  intros e He. destruct (gus_el_parts e He) as [Hz [Hn _]]. pose proof (el_mx_range e He) as Hm.
+  eexists _, _. split; [reflexivity|]. split.
+  - unfold ecp_cond, is_ecp_block_line. destruct (gehdr_facts _ _ _ Hz Hn (proj1 Hm)) as [_ [_ [_ [_ ->]]]]. reflexivity.
+  - rewrite Forall_forall. intros l Hl. unfold ecp_cond, is_ecp_block_line.
+    destruct (nhead_facts l (gesec_tail_lines e l He Hl)) as [_ [_ ->]]. reflexivity.
+Qed.
+
+Lemma gsec_not_ecp : forall els, Forall el_wf els -> Forall (fun l => ecp_cond l = inr false) (concat (map gsec els)).
+Proof.
+  intros els H. pose proof (no_ecp_lines els H) as E. rewrite Forall_forall. intros l Hl. unfold ecp_cond, ok. f_equal.
+  destruct (is_ecp_block_line l) eqn:El; [|reflexivity].
+  assert (X : existsb is_ecp_block_line (concat (map gsec els)) = true) by (apply existsb_exists; exists l; split; assumption).
+  congruence.
+Qed.
+
+Lemma concat_snoc_tail : forall (A : Type) (l : list (list A)) b T, concat (l ++ [b]) ++ T = concat (l ++ [b ++ T]).
+Proof. intros A l b T. rewrite !concat_app. cbn [concat]. rewrite !app_nil_r, app_assoc. reflexivity. Qed.
+
+(* the partition at the element names: the ECP part is the tail of the last element block *)
+Lemma partition_el_tail : forall els0 zl T, Forall el_wf els0 -> el_wf zl -> Forall (fun l => el_cond l = inr false) T ->
+  partition_lines (concat (map gsec (els0 ++ [zl])) ++ T) el_cond true 1 0 0 = inr (map gsec els0 ++ [gsec zl ++ T]).
+Proof.
+  intros els0 zl T H0 Hl HT. rewrite map_app. cbn [map]. rewrite concat_snoc_tail.
+  unfold partition_lines. rewrite (part_blocks el_cond (map gsec els0 ++ [gsec zl ++ T]) [] []).
+  - cbn [flush app]. unfold bind. rewrite existsb_false; [reflexivity|].
+    intros b Hb. apply Nat.ltb_ge. apply in_app_or in Hb. destruct Hb as [Hb|[<-|[]]].
+    + apply in_map_iff in Hb. destruct Hb as [zs [<- _]]. unfold gsec. cbn [List.length]. lia.
+    + unfold gsec. cbn [app List.length]. lia.
+  - apply Forall_app. split.
+    + rewrite Forall_forall in *. intros b Hb. apply in_map_iff in Hb. destruct Hb as [zs [<- Hzs]]. apply (gsec_shape zs (H0 zs Hzs)).
+    + constructor; [|constructor]. destruct (GamessUsSpec.gsec_shape zl Hl) as [h [r [E [Hh Hr]]]].
+      exists h, (r ++ T). split; [rewrite E; reflexivity|]. split; [exact Hh | apply Forall_app; split; assumption].
+Qed.
+
+Lemma partition_ecp_lead : forall E bs, E <> [] -> Forall (fun l => ecp_cond l = inr false) E ->
+  Forall (block_shape ecp_cond) bs -> partition_lines (E ++ concat bs) ecp_cond true 1 0 0 = inr (E :: bs).
+Proof.
+  intros E bs Hne HE Hbs. unfold partition_lines. rewrite (part_skip ecp_cond true E (concat bs) [] [] HE). cbn [app].
+  rewrite (part_blocks ecp_cond bs E [] Hbs). unfold bind.
+  assert (Ef : flush E [] ++ bs = E :: bs) by (destruct E; [congruence | reflexivity]). rewrite Ef.
+  rewrite existsb_false; [reflexivity|]. intros b [<-|Hb]; apply Nat.ltb_ge.
+  - destruct E; [congruence | cbn [List.length]; lia].
+  - rewrite Forall_forall in Hbs. destruct (Hbs b Hb) as [h [r [-> _]]]. cbn [List.length]. lia.
+Qed.
+
+(* ================================================================== *)
+(* 7. the terms, the potentials, the ECP blocks                        *)
+(* ================================================================== *)
+Definition nzt (t : Z * string * string) : bool := negb (is0_s (snd t)).
+Definition swap3 (t : Z * string * string) : string * Z * string := (snd t, fst (fst t), snd (fst t)).
+
+Lemma read_terms_rows : forall n R G C rest, List.length R = n -> List.length G = n -> List.length C = n ->
+  Forall (fun r => (0 <= r <= 9)%Z) R -> Forall floating G -> Forall floating C -> Forall (fun x => parse_num x <> None) C ->
+  gus_read_terms n (map strip_ws (map gerow (trip R G C)) ++ rest) =
+    inr (map swap3 (filter nzt (combine (combine R G) C)), rest).
+Proof.
+  induction n as [|n IH]; intros R G C rest HR HG HC HrR HfG HfC HpC.
+  - destruct R; [|discriminate]. reflexivity.
+  - destruct R as [|x R]; [discriminate|]. destruct G as [|g G]; [discriminate|]. destruct C as [|c C]; [discriminate|].
+    inversion HrR as [|? ? Hx HrR']; subst. inversion HfG as [|? ? Hg HfG']; subst. inversion HfC as [|? ? Hc HfC']; subst.
+    inversion HpC as [|? ? Hp HpC']; subst.
+    cbn [trip map app gus_read_terms].
+    assert (Ht : trip_ok (x, g, c)) by (split; assumption).
+    destruct (gerow_facts _ Ht) as [_ [_ Htok]].
+    unfold match_ecp_entry. rewrite tokens_strip, Htok. cbn [ttokrow].
+    destruct (digit_string x Hx) as [d [Ed [Hd Hval]]]. rewrite Ed.
+    unfold floating in Hg, Hc. rewrite Hc, Hd, Hg. cbn [andb].
+    destruct (parse_num c) as [v|] eqn:Ev; [|congruence].
+    rewrite (IH R G C rest ltac:(cbn in HR; lia) ltac:(cbn in HG; lia) ltac:(cbn in HC; lia) HrR' HfG' HfC' HpC').
+    unfold bind, ok. cbn [fst snd combine filter]. rewrite Hval.
+    unfold nzt at 2. cbn [snd]. unfold is0_s. rewrite Ev. destruct v as [m ex]. unfold dec_nonzero. cbn [fst].
+    destruct (Z.eqb m 0); reflexivity.
+Qed.
+
+Lemma parse_pots_blocks : forall mx pots fuel, Forall gus_pot_ok pots -> (0 <= mx < 25)%Z ->
+  List.length (flat_map (gpblk mx) pots) <= fuel ->
+  gus_parse_pots fuel (flat_map (gpblk mx) pots) = inr (map gus_expected_pot pots).
+Proof.
+  intros mx. induction pots as [|p pots IH]; intros fuel H Hm Hf.
+  - destruct fuel; reflexivity.
+  - inversion H as [|? ? Hp Hps]; subst. cbn [flat_map] in *. unfold gpblk at 1 in Hf. unfold gpblk at 1.
+    cbn [app List.length] in Hf. rewrite app_length in Hf. destruct fuel as [|f]; [lia|].
+    cbn [app gus_parse_pots map].
+    destruct (gus_pot_parts p Hp) as [Ea [Hr [HrR [HlG [Ec [HlC [HfC [HpC HfG]]]]]]]].
+    destruct (pletter_facts _ Hr) as [_ [_ [Eam _]]].
+    destruct (gtitle_facts mx p Hp Hm) as [_ [_ ->]]. rewrite Eam. unfold bind at 1.
+    rewrite nat_str_val, Nat2Z.id.
+    pose proof (read_terms_rows (List.length (p_rexp p)) (p_rexp p) (p_gexp p) (gpc p) (flat_map (gpblk mx) pots)
+                                eq_refl HlG HlC HrR HfG HfC HpC) as Hrd.
+    unfold gerows, gptrip. rewrite Hrd. unfold bind at 1. cbn [fst snd].
+    rewrite (IH f Hps Hm ltac:(lia)). unfold bind, ok. f_equal. f_equal.
+    unfold gus_expected_pot, gus_kept_terms. fold (gpc p). fold nzt. rewrite Ea, !map_map. reflexivity.
+Qed.
+
+Lemma parse_ecp_section_gus : forall e d, gus_ecp_el_ok e -> ~ In (fst e) (map fst d) ->
+  gus_parse_ecp_lines (gesec e) d =
+    inr (d ++ [(fst e, (fst (snd e), map gus_expected_pot (ecp_written_order (snd (snd e)))))]).
+Proof.
+  intros e d He Hd. destruct (gus_el_parts e He) as [Hz [Hn [_ [_ Hoo]]]]. pose proof (el_mx_range e He) as Hm.
+  destruct (usym_facts _ Hz) as [_ [_ [_ [_ Hback]]]].
+  destruct (gehdr_facts _ _ (el_mx e) Hz Hn (proj1 Hm)) as [_ [_ [_ [_ Hb]]]].
+  destruct (nonneg_string _ Hn) as [_ Hv].
+  unfold gus_parse_ecp_lines, gesec. rewrite Hb, Hback. unfold bind at 1.
+  rewrite (existsb_Zeqb_false _ _ Hd), (parse_pots_blocks _ _ _ Hoo Hm (le_n _)). unfold bind, ok. rewrite Hv. reflexivity.
+Qed.
+
+Lemma ecp_sections_parse_gus : forall ecps d, Forall gus_ecp_el_ok ecps -> NoDup (map fst ecps) ->
+  (forall z, In z (map fst ecps) -> ~ In z (map fst d)) ->
+  gus_ecp_blocks (map gesec ecps) d = inr (d ++ gus_ecp_expected ecps).
+Proof.
+  induction ecps as [|e ecps IH]; intros d Hel Hnd Hdis.
+  - cbn. now rewrite app_nil_r.
+  - inversion Hel as [|? ? H1 H2]; subst. cbn [map] in Hnd. inversion Hnd as [|? ? Hnotin Hnd']; subst.
+    cbn [map gus_ecp_blocks]. rewrite (parse_ecp_section_gus e d H1); [|apply Hdis; now left]. unfold bind.
+    rewrite IH; [| exact H2 | exact Hnd' |].
+    + unfold gus_ecp_expected. cbn [map]. rewrite <- app_assoc. reflexivity.
+    + intros z Hz. rewrite map_app, in_app_iff. cbn [map In fst]. intros [Hin|[Heq|[]]].
+      * apply (Hdis z); [now right | exact Hin].
+      * subst z. apply Hnotin, Hz.
+Qed.
+
+Lemma ecp_lead_block : forall E d, Forall (fun l => ecp_cond l = inr false) E -> gus_parse_ecp_lines E d = inr d.
+Proof.
+  intros [|l E] d H; [reflexivity|]. inversion H as [|? ? Hl _]; subst. unfold ecp_cond, ok, is_ecp_block_line in Hl.
+  cbn [gus_parse_ecp_lines]. destruct (match_ecp_block l); [discriminate Hl | reflexivity].
+Qed.
+
+Lemma element_blocks_app : forall a b d,
+  gus_element_blocks (a ++ b) d = (do d' <- gus_element_blocks a d; gus_element_blocks b d').
+Proof.
+  induction a as [|x a IH]; intros b d; [reflexivity|]. cbn [app gus_element_blocks]. unfold bind in *.
+  destruct (gus_parse_electron_lines x d) as [e|d1]; [reflexivity | apply IH].
+Qed.
+
+Lemma ecp_tail_no_shell : forall ecps, Forall gus_ecp_el_ok ecps -> no_shell_head (flat_map gesec ecps).
+Proof.
+  intros [|e ecps] H; [exact I|]. inversion H as [|? ? He _]; subst. cbn [flat_map]. unfold gesec at 1. cbn [app no_shell_head].
+  destruct (gus_el_parts e He) as [Hz [Hn _]]. pose proof (el_mx_range e He) as Hm.
+  apply (gehdr_facts _ _ _ Hz Hn (proj1 Hm)).
+Qed.
+
+(* ================================================================== *)
+(* 8. the round trip                                                   *)
+(* ================================================================== *)
+Lemma read_pruned_gus : forall els ecps L, gus_wf els -> gus_ecp_ok ecps -> els <> [] ->
+  gus_prune L = concat (map gsec els) ++ flat_map gesec ecps ->
+  gus_read_all_parts L = inr (gus_back els, gus_ecp_expected ecps).
+Proof.
+  intros els ecps L H1 [Hnd2 Hel2] Hne HL. pose proof (gus_wf_els els H1) as Hel. destruct H1 as [Hnd _].
+  unfold gus_read_all_parts. rewrite HL.
+  change (fun x : string => ok (is_ecp_block_line x)) with ecp_cond.
+  (* the ECP partition and the ECP blocks *)
+  assert (HP : (do ecp_blocks <- partition_lines (concat (map gsec els) ++ flat_map gesec ecps) ecp_cond true 1 0 0;
+                do pm <- gus_ecp_blocks ecp_blocks []; ok pm) = inr (gus_ecp_expected ecps)).
+  { rewrite flat_map_concat_map. rewrite partition_ecp_lead.
+    - unfold bind at 1. cbn [gus_ecp_blocks]. rewrite (ecp_lead_block _ [] (gsec_not_ecp els Hel)). unfold bind.
+      rewrite (ecp_sections_parse_gus ecps [] Hel2 Hnd2); [reflexivity | intros z _ []].
+    - destruct els as [|zs els']; [congruence|]. cbn [map concat]. unfold gsec at 1. discriminate.
+    - apply gsec_not_ecp, Hel.
+    - rewrite Forall_forall in *. intros b Hb. apply in_map_iff in Hb. destruct Hb as [e [<- He]]. apply gesec_shape, Hel2, He. }
+  (* the element partition and the element blocks *)
+  assert (HE : gus_read_electron_blocks (concat (map gsec els) ++ flat_map gesec ecps) = inr (gus_back els)).
+  { destruct (exists_last Hne) as [els0 [zl E]]. subst els.
+    apply Forall_app in Hel. destruct Hel as [Hel0 Hzl]. inversion Hzl as [|? ? Hzl' _]; subst.
+    unfold gus_read_electron_blocks. fold el_cond.
+    rewrite (partition_el_tail els0 zl _ Hel0 Hzl' (gesec_not_el ecps Hel2)). unfold bind.
+    rewrite element_blocks_app. rewrite map_app in Hnd. cbn [map] in Hnd.
+    pose proof (NoDup_remove_1 _ _ _ Hnd) as Hnd0. rewrite app_nil_r in Hnd0.
+    rewrite (sections_parse_gus els0 [] Hel0 Hnd0); [|intros z _ []]. unfold bind. cbn [app gus_element_blocks].
+    rewrite (parse_section_gus_tail zl _ _ Hzl' (ecp_tail_no_shell ecps Hel2)).
+    - unfold bind. unfold gus_back. rewrite map_app. reflexivity.
+    - pose proof (NoDup_remove_2 _ _ _ Hnd) as Hn. rewrite app_nil_r in Hn. unfold gus_back. rewrite map_map. cbn [fst]. exact Hn. }
+  rewrite HE. unfold bind in HP |- *.
+  destruct (partition_lines _ ecp_cond true 1 0 0) as [e|bl]; [discriminate HP|].
+  destruct (gus_ecp_blocks bl []) as [e|pm]; [discriminate HP|]. inversion HP; subst. reflexivity.
+Qed.
+
+Lemma read_all_parts_lines_gus : forall els ecps, gus_ok els -> gus_ecp_ok ecps -> els <> [] ->
+  gus_read_all_parts (gall_lines els ecps) = inr (gus_expected els, gus_ecp_expected ecps).
+Proof.
+  intros els ecps H1 H2 Hne. pose proof (gus_ok_wf els H1) as Hwf. rewrite <- (gus_back_expected els H1).
+  apply read_pruned_gus; try assumption. apply pruned_all_lines_gus; assumption.
+Qed.
+
+Lemma gus_all_roundtrip_parts : gus_all_roundtrip_parts_stmt.
+Proof.
+  intros els ecps t [H1 [H2 H3]] E. pose proof (gus_ok_wf els H1) as Hwf.
+  rewrite (write_all_text_gus els ecps Hwf H2) in E. inversion E; subst t. rewrite (written_all_lines_gus els ecps Hwf H2).
+  destruct els as [|zs els].
+  - rewrite (H3 eq_refl). reflexivity.
+  - apply read_all_parts_lines_gus; [exact H1 | exact H2 | discriminate].
+Qed.
+
+Lemma gus_all_roundtrip : gus_all_roundtrip_stmt.
+Proof.
+  intros els ecps H. pose proof H as [H1 [H2 _]]. pose proof (gus_ok_wf els H1) as Hwf.
+  unfold gus_roundtrip_all. rewrite (write_all_text_gus els ecps Hwf H2). unfold bind at 1.
+  unfold gus_read_all. rewrite (gus_all_roundtrip_parts els ecps _ H (write_all_text_gus els ecps Hwf H2)). reflexivity.
+Qed.
+
+(* ================================================================== *)
+(* 9. no number is lost                                                *)
+(* ================================================================== *)
+Lemma glines_in_all : forall els ecps l, els <> [] -> In l (glines els) -> In l (gall_lines els ecps).
+Proof.
+  intros els ecps l Hne Hl. destruct ecps as [|e ecps].
+  - rewrite gall_lines_el. destruct els; [congruence | exact Hl].
+  - rewrite (gall_lines_both els (e :: ecps) Hne ltac:(discriminate)). apply in_or_app. now left.
+Qed.
+
+Lemma ecp_el_lines_in_all : forall els ecps e l, In e ecps -> In l (gecp_el_lines e) -> In l (gall_lines els ecps).
+Proof.
+  intros els ecps e l He Hl.
+  assert (Hne : ecps <> []) by (intros ->; destruct He).
+  assert (Ht : In l (gecp_tail ecps)).
+  { unfold gecp_tail. right. right. apply in_or_app. left. apply in_flat_map. exists e. split; assumption. }
+  destruct els as [|zs els].
+  - rewrite (gall_lines_ecp ecps Hne). now right.
+  - rewrite (gall_lines_both (zs :: els) ecps ltac:(discriminate) Hne). apply in_or_app. now right.
+Qed.
+
+Lemma gehdr_tokens : forall z n mx, In (Z_to_string n) (tokens_acc (gehdr z n mx) "").
+Proof.
+  intros z n mx.
+  assert (E : gehdr z n mx = ((usym z +++ "-ECP GEN") +++ sp 4 +++ Z_to_string n) +++ sp 4 +++ Z_to_string mx)
+    by (unfold gehdr; rewrite !sapp_assoc; reflexivity).
+  rewrite E, (tokens_snoc 3 _ (int_tok mx)), (tokens_snoc 3 _ (int_tok n)). apply in_or_app. left. apply in_or_app. right. now left.
+Qed.
+
+Lemma gus_all_no_number_lost : gus_all_no_number_lost_stmt.
+Proof.
+  intros els ecps t H1 H2 E x Hx.
+  rewrite (write_all_text_gus els ecps H1 H2) in E. inversion E; subst t. rewrite (written_all_lines_gus els ecps H1 H2).
+  destruct Hx as [Hx|[e [He Hx]]].
+  - assert (Hne : els <> []) by (destruct Hx as [zs [_ [Hzs _]]]; intros ->; destruct Hzs).
+    destruct (gus_no_number_lost els (gtext els) H1 (write_electron_lines_gus els H1) x Hx) as [line [Hl Ht]].
+    rewrite (written_lines_gus els H1 Hne) in Hl. exists line. split; [apply glines_in_all; assumption | exact Ht].
+  - destruct H2 as [_ Hel]. rewrite Forall_forall in Hel. pose proof (Hel e He) as Hok.
+    destruct (gus_el_parts e Hok) as [_ [_ [Hne [Hpok _]]]]. destruct (gus_order_ok _ Hne) as [_ Hperm].
+    destruct Hx as [->|[p [Hp Hx]]].
+    + exists (gehdr (fst e) (fst (snd e)) (el_mx e)). split; [|apply gehdr_tokens].
+      apply (ecp_el_lines_in_all els ecps e _ He). now left.
+    + rewrite Forall_forall in Hpok. pose proof (Hpok p Hp) as Hpp.
+      destruct (gus_pot_parts p Hpp) as [_ [_ [_ [Hg [Ec [Hc _]]]]]].
+      destruct (trip_proj _ _ _ Hg Hc) as [P1 [P2 P3]]. fold (gptrip p) in P1, P2, P3.
+      assert (Ht : exists tr, In tr (gptrip p) /\ In x (ttokrow tr)).
+      { destruct Hx as [Hx|[[c [Hcin Hx]]|[r [Hr ->]]]].
+        - rewrite <- P2 in Hx. apply in_map_iff in Hx. destruct Hx as [[[a b] c] [<- Hin]]. eexists. split; [exact Hin|]. cbn. tauto.
+        - rewrite Ec in Hcin. destruct Hcin as [<-|[]]. rewrite <- P3 in Hx. apply in_map_iff in Hx.
+          destruct Hx as [[[a b] c] [<- Hin]]. eexists. split; [exact Hin|]. cbn. tauto.
+        - rewrite <- P1 in Hr. apply in_map_iff in Hr. destruct Hr as [[[a b] c] [<- Hin]]. eexists. split; [exact Hin|]. cbn. tauto. }
+      destruct Ht as [tr [Htr Hxt]]. pose proof (gptrip_ok p Hpp) as Hall. rewrite Forall_forall in Hall.
+      destruct (gerow_facts tr (Hall tr Htr)) as [_ [_ Htok]].
+      exists (gerow tr). split; [|rewrite Htok; exact Hxt].
+      apply (ecp_el_lines_in_all els ecps e _ He). unfold gecp_el_lines. right. apply in_flat_map. exists p.
+      split; [apply (Permutation_in _ Hperm), Hp|]. unfold gpot_lines, gerows. right. apply in_map, Htr.
+Qed.
+
+
+(* ================================================================== *)
+(* 10. the closed statements: findings, counterexamples, the store instance (by computation) *)
+(* ================================================================== *)
 Ltac nodup_z := repeat constructor; cbn; intros H; repeat (destruct H as [H|H]; [discriminate H|]); exact H.
 Ltac floats := repeat constructor.
 Ltac parses := repeat (constructor; [let H := fresh in intro H; vm_compute in H; discriminate H|]); constructor.
@@ -39,6 +765,10 @@ Proof.
   split; [el_ok | split; [ecp_ok | discriminate]].
 Qed.
 
+Print Assumptions gus_all_write_total.
+Print Assumptions gus_all_roundtrip_parts.
+Print Assumptions gus_all_roundtrip.
+Print Assumptions gus_all_no_number_lost.
 Print Assumptions gus_ecp_only.
 Print Assumptions gus_ecp_zero.
 Print Assumptions gus_ecp_conditions.
